@@ -852,8 +852,12 @@ def expand_table_lookups(fn, resolve_table, nonnull=None, max_rest=40):
 
     def rows(t):
         if isinstance(t, ast.Dict):
-            if any(k is None or not isinstance(k, ast.Constant)
-                   for k in t.keys):
+            def keyok(k):
+                # a constant, or a class constant written self.X / cls.X
+                return isinstance(k, ast.Constant) or (
+                    isinstance(k, ast.Attribute) and isinstance(
+                        k.value, ast.Name) and k.value.id in ("self", "cls"))
+            if any(k is None or not keyok(k) for k in t.keys):
                 return None
             return list(zip(t.keys, t.values))
         if any(isinstance(x, ast.Starred) for x in t.elts):
@@ -1019,7 +1023,21 @@ def class_table_resolver(world, cls, modname):
             r = cls.lookup(e.attr)
             if r is not None and r[1] == "attr" and isinstance(
                     r[2], (ast.Dict, ast.Tuple, ast.List)):
-                return r[2]
+                t = r[2]
+                if isinstance(t, ast.Dict) and any(
+                        isinstance(k, ast.Name) for k in t.keys):
+                    # keys written with the bare names of the class body
+                    # (`_OK: ...`) are `self._OK` where the table is used
+                    t = acopy(t)
+                    for i, k in enumerate(t.keys):
+                        if isinstance(k, ast.Name):
+                            rk = r[0].lookup(k.id)
+                            if rk is not None and rk[1] == "attr":
+                                t.keys[i] = ast.copy_location(ast.Attribute(
+                                    ast.Name(e.value.id, ast.Load()), k.id,
+                                    ast.Load()), k)
+                    ast.fix_missing_locations(t)
+                return t
         if isinstance(e, ast.Name):
             b = world.lookup(modname, e.id)
             v = getattr(b, "value", None) if b is not None and getattr(
